@@ -16,6 +16,7 @@ pub fn def() -> CheckDef {
         assumptions: &["monotone simulated clock", "state writes are observed through hook H2 (Task::set_state / set_pure_state)", "no storage errors are injected"],
         probes: &["probe.action_on_terminal_task", "probe.catch_revive", "probe.rejected_action", "probe.duplicate_action"],
         quick_cases: 3000,
+        no_shrink: &[],
     }
 }
 
